@@ -30,7 +30,7 @@ TRUSTED = ['harness/container_common.py (case encoding, real-object driver, OCam
            'difflib.get_close_matches is an oracle: its answer is recorded from the run and handed to the model']
 ASSUMPTIONS = c09.ASSUMPTIONS + ['ALIASES is a dict of str -> str (no key twice)']
 EXHAUSTIVE = {'quick': False, 'thorough': False}
-CASE_TIMEOUT = 30
+CASE_TIMEOUT = 60            # wall clock per case, first import of numpy / pandas / fsic included: ample also on a loaded machine
 HANDLES_TIMEOUT = True
 SOURCES = ['extensions/common.py', 'core/containers.py', 'core/interfaces.py', 'tools.py']
 
